@@ -237,25 +237,29 @@ def result_values(r):
 
 def rule_r1(repo):
     rr = RuleResult('C16.R1', 'child / attribute paths with slices: DataQuerent.query equals the evaluation over the nested JSON rendering')
-    tree = build_tree(0)
-    js = render_json(repo, *tree)
-    msg = make_message([tree], False)
-    for path in PATHS:
-        sub, comps = parse_ref(path)
-        try:
-            want = ref_query(js, comps)
-        except RefError as e:
-            raise AnalysisError('reference evaluation of %r failed: %s' % (path, e))
-        fi, r = run_query(repo, msg, path)
-        rr.instance('%s -> %r' % (path, want))
-        if not r.ok:
-            rr.fail('DataQuerent.query:raises', fi.where, 'query %r raises %s; the nested rendering gives %r' % (path, r.exc.cls, want), witness={'path': path})
-            continue
-        got = result_values(r)
-        if got is None or list(got.keys()) != [0] or got[0] != want:
-            rr.fail('DataQuerent.query:value', fi.where, 'query %r returns %r; evaluating the path over the nested JSON rendering gives %r (one envelope per '
-                    'replication, one list per repetition, matches in document order)' % (path, got, {0: want}), witness={'path': path})
-    rr.require_floor(30)
+    for variant, label in ((0, 'populated tree'), (2, 'tree whose delayed replication is repeated zero times')):
+        tree = build_tree(variant)
+        js = render_json(repo, *tree)
+        msg = make_message([tree], False)
+        for path in PATHS:
+            sub, comps = parse_ref(path)
+            try:
+                want = ref_query(js, comps)
+            except RefError as e:
+                if variant == 0:
+                    raise AnalysisError('reference evaluation of %r failed: %s' % (path, e))
+                continue
+            fi, r = run_query(repo, msg, path)
+            rr.instance('%s on the %s -> %r' % (path, label, want))
+            if not r.ok:
+                rr.fail('DataQuerent.query:raises', fi.where, 'query %r on the %s raises %s; the nested rendering gives %r' % (path, label, r.exc.cls, want),
+                        witness={'path': path, 'tree': label})
+                continue
+            got = result_values(r)
+            if got is None or list(got.keys()) != [0] or got[0] != want:
+                rr.fail('DataQuerent.query:value', fi.where, 'query %r on the %s returns %r; evaluating the path over the nested JSON rendering gives %r (one envelope per '
+                        'replication, one list per repetition, matches in document order)' % (path, label, got, {0: want}), witness={'path': path, 'tree': label})
+    rr.require_floor(50)
     return rr
 
 
@@ -418,6 +422,9 @@ def run(repo, check):
     check.run_rule(rule_r2, repo)
     check.run_rule(rule_r3, repo)
     check.run_rule(rule_r4, repo)
+    from sa.rules import c08
+    from sa.rules.common import share
+    share(check, repo, c08.rule_r5, 'C16.R5', 'data decoded through a compiled template come from the template compiled for this descriptor list and table version (shared with C08.R5)')
     check.assumptions = ['the reference evaluates only / and . steps with slices over the nested JSON rendering (faithfulness of that rendering: C09.R5); the descendant '
                          'separator is covered only through bare IDs of ordinary elements, as the property states',
                          'results on real messages additionally depend on the wiring (C07, C09); the fold uses hand-built wired trees']
